@@ -553,7 +553,7 @@ def check(pid, tier, seed):
 
     # 3. proofs (the translator obligations are regenerated from the source first: the generators
     #    rewrite their file only when its text changes, so an unchanged source costs nothing)
-    for g in ("gen_uidops.py", "gen_flowkey.py", "gen_langtables.py"):
+    for g in ("gen_uidops.py", "gen_flowkey.py", "gen_langtables.py", "gen_wiretables.py", "gen_statespace.py"):
         with Lock("coq"):
             rc, gout = sh([sys.executable, os.path.join(ROOT, "lib", g)])
         if rc != 0:
@@ -812,6 +812,8 @@ def setup():
     sh([sys.executable, os.path.join(ROOT, "lib", "gen_uidops.py")])
     sh([sys.executable, os.path.join(ROOT, "lib", "gen_flowkey.py")])
     sh([sys.executable, os.path.join(ROOT, "lib", "gen_langtables.py")])
+    sh([sys.executable, os.path.join(ROOT, "lib", "gen_wiretables.py")])
+    sh([sys.executable, os.path.join(ROOT, "lib", "gen_statespace.py")])
     # clean full build of the development
     sh(["make", "clean"], cwd=COQ)
     for f in glob.glob(os.path.join(COQ, "**", "*.vo*"), recursive=True) + glob.glob(os.path.join(COQ, "**", "*.glob"), recursive=True):
